@@ -1637,6 +1637,16 @@ Plan generate_plan(const std::string &profile_in, uint64_t seed, const JV &opts)
 	return p;
 }
 static Plan generate_plan_inner(const std::string &profile, uint64_t seed, const JV &opts) {
+	if (profile == "c07s") {
+		// start-up with one failing system call (socket, bind, listen, setsockopt, fcntl, getsockname, epoll_create, epoll_ctl, open): either the daemon
+		// refuses to start and exits cleanly, or it tolerates the failure and serves; no descriptor or allocation may be lost or released twice either way
+		Plan p; p.profile = profile; p.seed = seed; Rng r(seed);
+		JV h = JV::obj(); h.set("mode", JV::str("exact")); h.set("fill", JV::num((double)r.below(5)));
+		JV argv = JV::arr(); if (r.chance(0.7)) argv.push(JV::str("-f")); if (r.chance(0.3)) argv.push(JV::str("-l")); h.set("argv", argv);
+		h.set("end", JV::str("close")); h.set("startup_fail", JV::num((double)(1 + r.below(70))));
+		std::string pr = opts.gets("prop", "C07"); h.set("canary_prop", JV::str(pr)); h.set("memprop", JV::str(pr)); h.set("baseprop", JV::str(pr));
+		p.hdr = h; return p;
+	}
 	if (profile == "c02" || profile == "c06") return gen_hostile(profile, seed, opts);
 	if (profile == "c12" || profile == "c13") return gen_http(profile, seed, opts);
 	if (profile == "c09") return gen_c09(profile, seed, opts);
